@@ -1,4 +1,5 @@
 //! nbverif: pure executor. Reads cases on stdin, writes one observation line per case.
+mod crash;
 mod eval;
 mod fmt;
 mod list;
@@ -15,6 +16,7 @@ fn main() {
         "list" => list::main(),
         "fmt" => fmt::main(),
         "eval" => eval::main(),
+        "crash" => crash::main(),
         other => {
             eprintln!("unknown subcommand {other}");
             std::process::exit(2);
